@@ -185,7 +185,9 @@ ParseRecordAt(s, i) ==
 \* the RecordIter state machine instead)
 RECURSIVE ItemsFrom(_, _)
 ItemsFrom(s, i) ==
-  IF i > Len(s) THEN <<>>
+  \* ProguardRecordIter::next skips blank lines before it looks for a record, so trailing blank lines
+  \* (at the end of the file or after a malformed line) end the stream instead of becoming an error item
+  IF SkipNL(s, i) > Len(s) THEN <<>>
   ELSE LET r == ParseRecordAt(s, i) IN <<r.item>> \o ItemsFrom(s, r.next)
 Items(s) == ItemsFrom(s, 1)
 
